@@ -1,7 +1,10 @@
 """C14: the real TapeCassette matcher on (filter, recorded value) pairs."""
 from driver_common import main
 from lib.pyvals import to_py
+import json
+
 from playback.tape_cassette import TapeCassette
+from playback.tape_cassettes.s3.s3_tape_cassette import S3TapeCassette
 
 
 def code(fn):
@@ -28,7 +31,15 @@ def run_c14(case):
     m, me = code(lambda: TapeCassette.match_against_recorded_metadata({"k": f}, meta))
     # determinism: ask again
     v2, _ = code(lambda: TapeCassette._match_metadata_value(f, meta.get("k")))
-    return {"value": v, "meta": m, "again": v2, "err": ve or me}
+    out = {"value": v, "meta": m, "again": v2, "err": ve or me, "s3": 9}
+    if case.get("json_native"):
+        # the S3 content filter: the same matcher applied to the JSON text of the stored metadata object
+        # (s3_tape_cassette.py:247-260); comparable with the others when filter and metadata are JSON-native
+        text = json.dumps(meta)
+        s3, s3e = code(lambda: S3TapeCassette._create_content_filter_func({"k": f})(text))
+        out["s3"] = s3
+        out["err"] = out["err"] or s3e
+    return out
 
 
 if __name__ == '__main__':
